@@ -82,9 +82,16 @@ class C10(PoolCheck):
                 focused = False
         n_aborts = rng.choice([0, 0, 1, 1, 2, 3])
         abort_at = set(rng.sample(range(n), min(n_aborts, n - 1))) if n_aborts else set()
+        # families whose paths are resolved with each document's own declarations: four histories in ten repeat ONE
+        # such path over documents that bind its names differently
+        same_path = None
+        if getattr(e.family, 'doc_ns_paths', None) and rng.random() < 0.4:
+            the_path = rng.choice(e.family.doc_ns_paths)
+            same_path = [o for o in m if o.get('path') == the_path and not o.get('ns')]
+            pool = list(range(len(e.docs)))
         hist = []
         for i in range(n):
-            op = dict(rng.choice(m))
+            op = dict(rng.choice(same_path if same_path and rng.random() < 0.8 else m))
             op['doc'] = rng.choice(pool)
             if i in abort_at and i < n - 1 and op['api'] in histories.HOOKABLE_APIS:
                 kinds = ABORT_KINDS if self.ASYNC else [a for a in ABORT_KINDS if not a.startswith('async')]
